@@ -65,3 +65,21 @@ Example C09_example :
   | _ => False
   end.
 Proof. vm_compute. split; reflexivity. Qed.
+
+(* a `readonly` rule inside a definition is checked whether or not the document was normalized before (1be154a): the
+   definition's validator does not inherit the "already normalized" flag -- normalization never descends into definitions --
+   so the rule files its error and the definition counts as failing *)
+Theorem C09_readonly_in_a_definition_is_checked :
+  forall x op field i def' st v,
+    c_is_normalized (x_cfg (def_ctx current x op field i def')) = false /\
+    h_readonly current (def_ctx current x op field i def') st (VBool true) field v =
+    (do st' <- file_error current (def_ctx current x op field i def') st field "READONLY_FIELD" [] [];
+     Ok {| o_st := st'; o_drop := DNone; o_stop := false |}).
+Proof.
+  intros x op field i def' st v. split.
+  - destruct (x_cfg x); reflexivity.
+  - unfold h_readonly. cbn [truthy].
+    assert (Hn : c_is_normalized (x_cfg (def_ctx current x op field i def')) = false) by (destruct (x_cfg x); reflexivity).
+    rewrite Hn. cbn [andb]. reflexivity.
+Qed.
+Print Assumptions C09_readonly_in_a_definition_is_checked.
